@@ -65,7 +65,7 @@ def _wr_violations(rep, cases, rejects, select):
 
 
 def _neg_wr(rep, pid, cases):
-    good = [c for c in cases.values() if not c["werr"] and len(c["b"]["exs"]) >= 2 and len(c["file"]) < 4000][0]
+    good = [c for c in cases.values() if c["case"] not in rep.rejected_ids and not c["werr"] and len(c["b"]["exs"]) >= 2 and len(c["file"]) < 4000][0]
     b1 = json.loads(json.dumps(good)); b1["case"] = "neg1"; b1["file"][-1] ^= 1                 # trailing length
     b2 = json.loads(json.dumps(good)); b2["case"] = "neg2"; b2["b"]["exs"][0]["body"] = b2["b"]["exs"][0]["body"] + [1]   # file lacks a byte of the bundle
     b3 = json.loads(json.dumps(good)); b3["case"] = "neg3"; b3["count"] += 1
@@ -168,7 +168,7 @@ def check_c05(tier):
                           {"component": "bundleread", "file": c["file"], "note": c["note"], "why": w})
     for c in list(cases.values())[:2] + list(cases.values())[-1:]:
         rep.sample({"mutation": c["note"], "file_len": len(c["file"]), "real_verdict": c["verdict"]})
-    good = [c for c in cases.values() if c["verdict"] == "ok" and c["note"].startswith("none") and c["b2"]["exs"]][0]
+    good = [c for c in cases.values() if c["case"] not in rep.rejected_ids and c["verdict"] == "ok" and c["note"].startswith("none") and c["b2"]["exs"]][0]
     b1 = json.loads(json.dumps(good)); b1["case"] = "neg1"; b1["b2"]["exs"][0]["body"] = b1["b2"]["exs"][0]["body"] + [0]   # fabricated content
     b2 = json.loads(json.dumps(good)); b2["case"] = "neg2"; b2["verdict"] = "panic"
     p = os.path.join(wd, "neg.ndjson")
